@@ -124,6 +124,17 @@ ExtremeAxisCases(shape) ==
       /\ P(CaseRec("gather", "Gather", <<>>, <<X, T("i64", <<1>>, <<e>>)>>, MustError, <<"invalid", "extreme_index">>))
       /\ P(CaseRec("transpose", "Transpose", <<AIs("perm", [i \in 1..r |-> IF i = r THEN e ELSE Fin(i - 1)])>>, <<X>>, MustError, <<"invalid", "extreme_perm">>))
 
+\* long tensors (an element count that is no multiple of a block size): every element ends up where the operator sends it
+LongCases ==
+   LET n == 20001 X == Iota("f32", <<n, 2>>, 0) V == Iota("i64", <<2 * n + 1>>, 0) IN
+   /\ P(CaseRec("long", "Transpose", <<AIs("perm", <<1, 0>>)>>, <<X>>, SemTranspose(X, <<AIs("perm", <<1, 0>>)>>), <<"value", "long">>))
+   /\ \A ax \in {0, 1} : P(CaseRec("long", "Concat", <<AI("axis", ax)>>, <<X, X>>, SemConcat(<<X, X>>, <<AI("axis", ax)>>), <<"value", "long">>))
+   /\ P(CaseRec("long", "Concat", <<AI("axis", 0)>>, <<V, V>>, SemConcat(<<V, V>>, <<AI("axis", 0)>>), <<"value", "long">>))
+   /\ LET a == SemSliceInts(V, <<1>>, <<2 * n>>, <<0>>, <<1>>) IN P(CaseRec("long", "Slice", <<>>, <<V, I64(<<1>>), I64(<<2 * n>>), I64(<<0>>), I64(<<1>>)>>, a, <<"value", "long">>))
+   /\ LET a == SemSliceInts(V, <<2 * n>>, <<0>>, <<0>>, <<-1>>) IN P(CaseRec("long", "Slice", <<>>, <<V, I64(<<2 * n>>), I64(<<0>>), I64(<<0>>), I64(<<-1>>)>>, a, <<"value", "long">>))
+   /\ LET I == T("i64", <<n>>, [k \in 1..n |-> (k * 7919) % (2 * n + 1)]) IN P(CaseRec("long", "Gather", <<>>, <<V, I>>, SemGather(V, I, <<>>), <<"value", "long">>))
+   /\ LET C == Iota("f32", <<n, 1>>, 0) S == I64(<<n, 2>>) IN P(CaseRec("long", "Expand", <<>>, <<C, S>>, SemExpand(C, S), <<"value", "long">>))
+
 Init ==
    \/ ("dtypes" \in Fams /\ st \in [fam : {"dtypes"}, dt : AllDTypes, done : {FALSE}])
    \/ ("transpose" \in Fams /\ st \in [fam : {"transpose"}, shape : DataShapes(1..4), done : {FALSE}])
@@ -143,7 +154,7 @@ Emit ==
         [] st.fam = "slicex"    -> SliceExtremeCases(st.shape) /\ SliceInvalidCases(st.shape)
         [] st.fam = "gather"    -> (st.axis \in (-Len(st.shape) - 1)..Len(st.shape) => GatherCases(st.shape, st.axis))
         [] st.fam = "expand"    -> ExpandCases(st.shape, st.target)
-        [] st.fam = "dtypes"    -> DtypeCases(st.dt)
+        [] st.fam = "dtypes"    -> DtypeCases(st.dt) /\ (st.dt = "f32" => LongCases)
    /\ st' = [st EXCEPT !.done = TRUE]
 Next == Emit
 Spec == Init /\ [][Next]_st
